@@ -25,7 +25,7 @@ RULE = (
     "abort raised by an observer) are run in-process and through external/<method>: the traces (every evaluator request "
     "bitwise, every delivered result array, exit code) must be identical. Crash points: the optimizer process is killed "
     "(SIGKILL, SIGTERM) while the parent computes evaluation j (immediately, or 0.6 s later while the parent waits for the next request), for j = 0..2 (quick) / every j (thorough) of several "
-    "configurations, and the evaluator raises (ValueError, OSError subclasses, KeyError, a custom exception) at evaluation j; one configuration has an evaluation that takes 11 s. Oracle: never OPTIMIZER_STEP_FINISHED after a kill, the "
+    "configurations, and the evaluator raises (ValueError, OSError subclasses, KeyError, a custom exception, KeyboardInterrupt, SystemExit) at evaluation j; one configuration has an evaluation that takes 11 s. Oracle: never OPTIMIZER_STEP_FINISHED after a kill, the "
     "step returns within 30 s of the kill, no optimizer process is left running afterwards, the evaluator's exception "
     "reaches the caller. Error reports: a backend plug-in (found by both processes through its entry point) that, after k "
     "evaluations, raises with / without a message, fails a bare assert, or leaves the process with exit status 3: the run ends "
@@ -77,6 +77,8 @@ CONFIGS: dict[str, dict[str, Any]] = {
                               "gradient": {"number_of_perturbations": 1, "perturbation_magnitudes": 0.02}},
     # path-valued options (output directory, redirected output)
     "slsqp-output-dir": {"optimizer": {"method": "slsqp", "options": {"maxiter": 2}}, "_paths": True},
+    # option values that are NumPy scalars (as they come out of array arithmetic or YAML/NumPy based front-ends)
+    "slsqp-numpy-scalar-options": {"optimizer": {"method": "slsqp", "options": {"maxiter": 3, "ftol": 1e-7}}, "_numpy_options": True},
     # one evaluation takes longer than any time-out inside the protocol (11 s; only slept in the external run)
     "slsqp-slow-evaluation": {"optimizer": {"method": "slsqp", "options": {"maxiter": 2}}, "_sleep": (1, 11.0)},
     "de-explicit-start-masked": {"optimizer": {"method": "differential_evolution", "options": {"seed": 5, "popsize": 2, "maxiter": 1, "tol": 0.0}},
@@ -128,6 +130,9 @@ def build(name: str, external: bool) -> tuple[dict[str, Any], AffineEvaluator, i
             cfg[key] = {**cfg[key], **val}
         else:
             cfg[key] = val
+    if spec.get("_numpy_options"):
+        cfg["optimizer"] = {**cfg["optimizer"], "options": {k: (np.int64(v) if isinstance(v, int) else np.float64(v))
+                                                           for k, v in cfg["optimizer"]["options"].items()}}
     if spec.get("_paths"):
         import tempfile
 
@@ -151,7 +156,7 @@ class InjectedEvaluatorError(Exception):
 
 
 RAISE_TYPES = {"ValueError": ValueError, "FileNotFoundError": FileNotFoundError, "TimeoutError": TimeoutError,
-               "KeyError": KeyError, "custom": InjectedEvaluatorError}
+               "KeyError": KeyError, "custom": InjectedEvaluatorError, "KeyboardInterrupt": KeyboardInterrupt, "SystemExit": SystemExit}
 
 
 def run_config(name: str, external: bool, kill: tuple[Any, ...] | None = None, raise_at: int | None = None,  # noqa: FBT001
@@ -235,7 +240,7 @@ def run_config(name: str, external: bool, kill: tuple[Any, ...] | None = None, r
         out["hang"] = True
     except HarnessError:
         raise
-    except Exception as exc:  # noqa: BLE001
+    except (Exception, KeyboardInterrupt, SystemExit) as exc:  # noqa: BLE001
         out["exc"] = exc
     finally:
         signal.alarm(0)
@@ -493,7 +498,7 @@ def shards(tier: str, seed: int) -> list[dict[str, Any]]:  # noqa: ARG001
                 items.append({"kind": "kill", "config": name, "at": j, "signal": sig, "mode": "immediate"})
                 items.append({"kind": "kill", "config": name, "at": j, "signal": sig, "mode": "deferred"})
             items.extend({"kind": "raise", "config": name, "at": j, "raise_type": rtype}
-                         for rtype in (("ValueError", "FileNotFoundError", "custom") if tier == "quick" else RAISE_TYPES))
+                         for rtype in (("ValueError", "FileNotFoundError", "custom", "KeyboardInterrupt") if tier == "quick" else RAISE_TYPES))
     return items
 
 
